@@ -124,22 +124,25 @@ theorem transmit_single {fp : FdlParams} {m : Master} {p : Peripheral} (hS : Sin
     exact txLoop_single hS _
 
 /-- What a turn of a single-peripheral master is (see the header of this file). -/
-inductive TurnKind (J : Joint) (p : Peripheral) (mid : Bool) (d : Delivery) : Joint → TurnObs → Prop
+inductive TurnKind (J : Joint) (p : Peripheral) (now : Int) (mid : Bool) (d : Delivery) : Joint → TurnObs → Prop
   /-- global-control broadcast: the slave ignores it -/
   | gc (m' : Master) (o : TurnObs) (p' : Peripheral) :
       Single m' p' → p' = (if mid then reqDiag p else p) → m'.cycle = J.m.cycle → o.expect = none → o.tx.isSome = true →
-      TurnKind J p mid d { J with m := m' } o
+      m'.lastGc = some now →
+      TurnKind J p now mid d { J with m := m' } o
   /-- the turn that closes the cycle -/
-  | close (m' : Master) : Single m' p → J.m.cycle = .completed → m'.cycle = .dx 0 →
-      TurnKind J p mid d { J with m := m' } {}
+  | close (m' : Master) : Single m' p → J.m.cycle = .completed → m'.cycle = .dx 0 → m'.lastGc = J.m.lastGc →
+      TurnKind J p now mid d { J with m := m' } {}
   /-- one visit of the peripheral -/
   | visit (m' : Master) (s' : Slave) (o : TurnObs) (p' : Peripheral) (ev : Option PEvent) :
       Single m' p' → J.m.cycle = .dx 0 →
       PJ.visit ⟨J.fp, J.m.op, p, J.s⟩ mid d = some (⟨J.fp, J.m.op, p', s'⟩, ev) →
       m'.lastEvents.peripheral = ev.map (fun e => { index := 0, address := p.address, ev := e }) →
       -- a reply closes the cycle; otherwise the next turn visits the peripheral again
-      (m'.cycle = .completed ∨ m'.cycle = .dx 0) →
-      TurnKind J p mid d { J with m := m', s := s' } o
+      (m'.cycle = .completed ∨ m'.cycle = .dx 0) → m'.lastGc = J.m.lastGc →
+      -- not a broadcast: nothing was sent, or a reply is expected
+      (o.tx = none ∨ o.expect.isSome = true) →
+      TurnKind J p now mid d { J with m := m', s := s' } o
 
 theorem single_reqDiag {m : Master} {p : Peripheral} (hS : Single m p) :
     (m.requestDiagnostics 0).getD m = { m with slots := m.slots.set 0 (some (reqDiag p)) } ∧
@@ -155,10 +158,10 @@ theorem single_set {m : Master} {p : Peripheral} (hS : Single m p) (p' : Periphe
   exact ⟨⟨k, by simp only [hk]; rfl⟩, hS.op, hc⟩
 
 /-- The delivery half of a visiting turn. -/
-theorem turn_tail {fp : FdlParams} {m : Master} {s : Slave} {p : Peripheral} {mid : Bool} {d : Delivery}
+theorem turn_tail {fp : FdlParams} {m : Master} {s : Slave} {p : Peripheral} {now : Int} {mid : Bool} {d : Delivery}
     {m1 : Master} {p1 : Peripheral} {h : Header} {pdu : Bytes} (hS1 : Single m1 p1)
     (hev1 : m1.lastEvents = {}) (hcy1 : m1.cycle = .dx 0) (haddr : p1.address = p.address)
-    (hc : m.cycle = .dx 0)
+    (hc : m.cycle = .dx 0) (hgc1 : m1.lastGc = m.lastGc)
     (hvis : PJ.visit ⟨fp, m.op, p, s⟩ mid d =
       (match d.deliver (s.receive h pdu).2 with
        | none => some (⟨fp, m.op, p1, (s.receive h pdu).1⟩, none)
@@ -166,7 +169,8 @@ theorem turn_tail {fp : FdlParams} {m : Master} {s : Slave} {p : Peripheral} {mi
          match p1.receiveReply t with
          | .panic => none
          | .ok p2 ev => some (⟨fp, m.op, p2, (s.receive h pdu).1⟩, ev)))
-    (hsome : (PJ.visit ⟨fp, m.op, p, s⟩ mid d).isSome = true) (o1 : TurnObs) (o2 : Telegram → TurnObs) :
+    (hsome : (PJ.visit ⟨fp, m.op, p, s⟩ mid d).isSome = true) (o1 : TurnObs) (o2 : Telegram → TurnObs)
+    (ho1 : o1.expect.isSome = true) (ho2 : ∀ t, (o2 t).expect.isSome = true) :
     ∃ J' o,
       (match d.deliver (s.receive h pdu).2 with
        | none => TurnRes.ok { fp := fp, m := m1.handleTimeout p.address, s := (s.receive h pdu).1, slot := 0 } o1
@@ -174,12 +178,12 @@ theorem turn_tail {fp : FdlParams} {m : Master} {s : Slave} {p : Peripheral} {mi
          match m1.receiveReply p.address t with
          | .panic => TurnRes.panic
          | .ok m2 => TurnRes.ok { fp := fp, m := m2, s := (s.receive h pdu).1, slot := 0 } (o2 t)) = .ok J' o ∧
-      TurnKind ⟨fp, m, s, 0⟩ p mid d J' o := by
+      TurnKind ⟨fp, m, s, 0⟩ p now mid d J' o := by
   cases hdel : d.deliver (s.receive h pdu).2 with
   | none =>
     rw [hdel] at hvis
     exact ⟨_, _, rfl, .visit _ (s.receive h pdu).1 o1 p1 none hS1 hc hvis (by simp [Master.handleTimeout, hev1])
-      (Or.inr (by simp [Master.handleTimeout, hcy1]))⟩
+      (Or.inr (by simp [Master.handleTimeout, hcy1])) (by simp [Master.handleTimeout, hgc1]) (Or.inr ho1)⟩
   | some t =>
     rw [hdel] at hvis
     simp only at hvis ⊢
@@ -190,13 +194,13 @@ theorem turn_tail {fp : FdlParams} {m : Master} {s : Slave} {p : Peripheral} {mi
       rw [hrr] at hvis
       simp only at hvis ⊢
       exact ⟨_, _, rfl, .visit _ (s.receive h pdu).1 (o2 t) p2 ev (single_set hS1 p2 .completed _ (Or.inr rfl)) hc hvis
-        (by simp [haddr]) (Or.inl rfl)⟩
+        (by simp [haddr]) (Or.inl rfl) (by simp [hgc1]) (Or.inr (ho2 t))⟩
 
 /-- **One `transmit_telegram` of a single-peripheral master** against the slave, under any delivery. -/
 theorem turn_single {J : Joint} {p : Peripheral} (hS : Single J.m p) (hslot : J.slot = 0)
     (hg : Good ⟨J.fp, J.m.op, p, J.s⟩) (ha : J.s.cfg.address ≠ 127) {now : Int} (hnow : timeB now)
     (hgc : ∀ t, J.m.lastGc = some t → timeB t) (mid : Bool) {d : Delivery} (hd : ∀ t, d = .sub t → RxOk t) :
-    ∃ J' o, J.turn now mid d = .ok J' o ∧ TurnKind J p mid d J' o := by
+    ∃ J' o, J.turn now mid d = .ok J' o ∧ TurnKind J p now mid d J' o := by
   obtain ⟨fp, m, s, slot⟩ := J
   simp only at hslot hS hg ha hgc
   subst hslot
@@ -218,11 +222,11 @@ theorem turn_single {J : Joint} {p : Peripheral} (hS : Single J.m p) (hslot : J.
     cases mid with
     | false =>
       simp only [Bool.false_eq_true, if_false]
-      cases d <;> exact ⟨_, _, rfl, .gc _ _ p hS0 rfl rfl rfl rfl⟩
+      cases d <;> exact ⟨_, _, rfl, .gc _ _ p hS0 rfl rfl rfl rfl rfl⟩
     | true =>
       obtain ⟨h1, h2⟩ := single_reqDiag hS0
       simp only [if_true, h1]
-      cases d <;> exact ⟨_, _, rfl, .gc _ _ (reqDiag p) h2 rfl rfl rfl rfl⟩
+      cases d <;> exact ⟨_, _, rfl, .gc _ _ (reqDiag p) h2 rfl rfl rfl rfl rfl⟩
   | false =>
     simp only [Bool.false_eq_true, if_false]
     rcases hS.cycle with hc | hc
@@ -235,10 +239,10 @@ theorem turn_single {J : Joint} {p : Peripheral} (hS : Single J.m p) (hslot : J.
         cases ev' with
         | some e =>
           exact ⟨_, _, rfl, .visit _ s {} p' (some e)
-            (single_set hS p' (.dx 0) _ (Or.inl rfl)) hc (by unfold PJ.visit; simp only [ht]) rfl (Or.inr rfl)⟩
+            (single_set hS p' (.dx 0) _ (Or.inl rfl)) hc (by unfold PJ.visit; simp only [ht]) rfl (Or.inr rfl) rfl (Or.inl rfl)⟩
         | none =>
           exact ⟨_, _, rfl, .visit _ s {} p' none
-            (single_set hS p' (.dx 0) _ (Or.inl rfl)) hc (by unfold PJ.visit; simp only [ht]) rfl (Or.inr rfl)⟩
+            (single_set hS p' (.dx 0) _ (Or.inl rfl)) hc (by unfold PJ.visit; simp only [ht]) rfl (Or.inr rfl) rfl (Or.inl rfl)⟩
       | send p' h pdu =>
         -- the request on the wire
         have hsend : p.Sendable fp := by
@@ -266,16 +270,16 @@ theorem turn_single {J : Joint} {p : Peripheral} (hS : Single J.m p) (hslot : J.
         -- the master after the optional user call
         have hS' : Single { m with slots := m.slots.set 0 (some p'), cycle := .dx 0, lastEvents := {} } p' :=
           ⟨by obtain ⟨k, hk⟩ := hS.slots; exact ⟨k, by simp only [hk]; rfl⟩, hS.op, Or.inl rfl⟩
-        obtain ⟨m1, p1, hm1, hp1, hS1, hev1, hcy1⟩ : ∃ m1 p1,
+        obtain ⟨m1, p1, hm1, hp1, hS1, hev1, hcy1, hgc1⟩ : ∃ m1 p1,
             m1 = (if mid then ((({ m with slots := m.slots.set 0 (some p'), cycle := .dx 0, lastEvents := {} } : Master).requestDiagnostics 0).getD
                     { m with slots := m.slots.set 0 (some p'), cycle := .dx 0, lastEvents := {} })
                   else { m with slots := m.slots.set 0 (some p'), cycle := .dx 0, lastEvents := {} }) ∧
-            p1 = (if mid then reqDiag p' else p') ∧ Single m1 p1 ∧ m1.lastEvents = {} ∧ m1.cycle = .dx 0 := by
+            p1 = (if mid then reqDiag p' else p') ∧ Single m1 p1 ∧ m1.lastEvents = {} ∧ m1.cycle = .dx 0 ∧ m1.lastGc = m.lastGc := by
           cases mid with
-          | false => exact ⟨_, _, rfl, rfl, hS', rfl, rfl⟩
+          | false => exact ⟨_, _, rfl, rfl, hS', rfl, rfl, rfl⟩
           | true =>
             obtain ⟨h1, h2⟩ := single_reqDiag hS'
-            exact ⟨_, _, rfl, rfl, by simp only [if_true, h1]; exact h2, by simp only [if_true, h1], by simp only [if_true, h1]⟩
+            exact ⟨_, _, rfl, rfl, by simp only [if_true, h1]; exact h2, by simp only [if_true, h1], by simp only [if_true, h1], by simp only [if_true, h1]⟩
         have haddr : p1.address = p.address := by
           have : p'.address = p.address := by
             rcases tx_ctl hg.fp hg.op hg.pinv hg.m with ⟨_, h1⟩ | ⟨_, _, h1⟩ | ⟨_, k, h2, pdu2, _, h1, _⟩
@@ -305,7 +309,7 @@ theorem turn_single {J : Joint} {p : Peripheral} (hS : Single J.m p) (hslot : J.
         · subst hloss
           simp only at hvis' ⊢
           exact ⟨_, _, rfl, .visit _ s _ p1 none hS1 hc hvis' (by simp [Master.handleTimeout, hev1])
-            (Or.inr (by simp [Master.handleTimeout, hcy1]))⟩
+            (Or.inr (by simp [Master.handleTimeout, hcy1])) (by simp [Master.handleTimeout, hgc1]) (Or.inr rfl)⟩
         · have hvis2 : PJ.visit ⟨fp, m.op, p, s⟩ mid d =
               (match d.deliver (s.receive h pdu).2 with
                | none => some (⟨fp, m.op, p1, (s.receive h pdu).1⟩, none)
@@ -317,11 +321,11 @@ theorem turn_single {J : Joint} {p : Peripheral} (hS : Single J.m p) (hslot : J.
           have hsome : (PJ.visit ⟨fp, m.op, p, s⟩ mid d).isSome = true := by rw [hvis]; rfl
           cases d with
           | lossReq => exact absurd rfl hloss
-          | ok => exact turn_tail hS1 hev1 hcy1 haddr hc hvis2 hsome ⟨some (frameSpec h pdu), some p.address, true, (s.receive h pdu).2, none⟩ (fun t => ⟨some (frameSpec h pdu), some p.address, true, (s.receive h pdu).2, some t⟩)
-          | lossRep => exact turn_tail hS1 hev1 hcy1 haddr hc hvis2 hsome ⟨some (frameSpec h pdu), some p.address, true, (s.receive h pdu).2, none⟩ (fun t => ⟨some (frameSpec h pdu), some p.address, true, (s.receive h pdu).2, some t⟩)
-          | sub t0 => exact turn_tail hS1 hev1 hcy1 haddr hc hvis2 hsome ⟨some (frameSpec h pdu), some p.address, true, (s.receive h pdu).2, none⟩ (fun t => ⟨some (frameSpec h pdu), some p.address, true, (s.receive h pdu).2, some t⟩)
+          | ok => exact turn_tail hS1 hev1 hcy1 haddr hc hgc1 hvis2 hsome ⟨some (frameSpec h pdu), some p.address, true, (s.receive h pdu).2, none⟩ (fun t => ⟨some (frameSpec h pdu), some p.address, true, (s.receive h pdu).2, some t⟩) rfl (fun _ => rfl)
+          | lossRep => exact turn_tail hS1 hev1 hcy1 haddr hc hgc1 hvis2 hsome ⟨some (frameSpec h pdu), some p.address, true, (s.receive h pdu).2, none⟩ (fun t => ⟨some (frameSpec h pdu), some p.address, true, (s.receive h pdu).2, some t⟩) rfl (fun _ => rfl)
+          | sub t0 => exact turn_tail hS1 hev1 hcy1 haddr hc hgc1 hvis2 hsome ⟨some (frameSpec h pdu), some p.address, true, (s.receive h pdu).2, none⟩ (fun t => ⟨some (frameSpec h pdu), some p.address, true, (s.receive h pdu).2, some t⟩) rfl (fun _ => rfl)
     · -- closing the cycle
       simp only [hc]
-      exact ⟨_, _, rfl, .close _ ⟨hS.slots, hS.op, Or.inl rfl⟩ hc rfl⟩
+      exact ⟨_, _, rfl, .close _ ⟨hS.slots, hS.op, Or.inl rfl⟩ hc rfl rfl⟩
 
 end PV.Live
